@@ -11,7 +11,8 @@ import "math"
 //	    vertex (other than the crossing edges' own end points when they are p's
 //	    nearest points) passes within tol of p.
 //
-// Exact coincidences (shared vertices, a vertex exactly on an edge, collinear overlaps,
+// An edge that is an identical copy (same two end points) of one of the crossing edges is
+// not a "third edge". Exact coincidences (shared vertices, a vertex exactly on an edge, collinear overlaps,
 // several edges through one integer point) do NOT satisfy the predicate.
 // The second result names the reason for statistics.
 func NearDegenerate(sets []Paths, closed bool, tol float64) (bool, string) {
@@ -88,8 +89,8 @@ func NearDegenerate(sets []Paths, closed bool, tol float64) (bool, string) {
 				}
 			}
 			for k, o := range segs {
-				if k == i || k == j {
-					continue
+				if k == i || k == j || sameSeg(o.a, o.b, s.a, s.b) || sameSeg(o.a, o.b, t.a, t.b) {
+					continue // an identical copy of a crossing edge crosses at the identical point
 				}
 				if px < float64(min(o.a.X, o.b.X))-tol || px > float64(max(o.a.X, o.b.X))+tol ||
 					py < float64(min(o.a.Y, o.b.Y))-tol || py > float64(max(o.a.Y, o.b.Y))+tol {
@@ -103,3 +104,5 @@ func NearDegenerate(sets []Paths, closed bool, tol float64) (bool, string) {
 	}
 	return false, ""
 }
+
+func sameSeg(a, b, c, d P) bool { return (a == c && b == d) || (a == d && b == c) }
